@@ -245,6 +245,85 @@ def killCheck (s : JobList) (arg : Str) : Option String :=
        else if j.state.isAlive ∧ j.owned ∧ j.jc then some "kill-refused" else none)
   | _ => none
 
+/-! ### wave 3: what the doc comments of `remove_if` / `extract_if` / `remove` / `add` / `state_reported` /
+    `add_job_if_suspended` promise, as checks on one step `s → s'` -/
+
+/-- the job numbers whose job the predicate selects, ascending ("Jobs are iterated in the order of indices") -/
+def selectedIdx (s : JobList) (pred : Nat → Job → Bool) : List Nat :=
+  (occupied s.entries).filter fun i => match gets s.entries i with | some j => pred i j | none => false
+
+/-- `remove_if` (`take = none`, `returned = none`), `extract_if` drained (`returned` = what the iterator yielded)
+    or advanced `n` times and dropped (`take = some n`): the selected jobs (the first `n` of them) are gone and are
+    what was yielded; every other job is in its slot unchanged, `state_changed` cleared iff the closure reports
+    and the iterator got that far ("the remaining jobs are retained in the list"); nothing is added; `remove`:
+    a current job that stays is still the current job, if it goes and the previous job stays that one is the
+    current job, if both stay the previous job stays; `$!` is not touched. -/
+def removalSpec (s s' : JobList) (pred : Nat → Job → Bool) (report : Bool) (take : Option Nat)
+    (returned : Option (List Nat)) : Option String :=
+  let selAll := selectedIdx s pred
+  let sel := match take with | some n => selAll.take n | none => selAll
+  let cut : Option Nat := match take with
+    | none => none
+    | some n => if n = 0 then some 0 else if selAll.length < n then none else sel.getLast?.map (· + 1)
+  let visited : Nat → Bool := fun i => match cut with | some c => decide (i < c) | none => true
+  let n := max s.entries.length s'.entries.length
+  if !(List.range n).all (fun i =>
+        gets s'.entries i ==
+          (match gets s.entries i with
+           | none => none
+           | some j => if sel.contains i then none
+                       else some (if report && visited i then { j with changed := false } else j))) then some "rmif-table"
+  else if returned.isSome && returned != some sel then some "rmif-result"
+  else if s'.lastAsync != s.lastAsync then some "rmif-async"
+  else
+    match s.currentJob with
+    | none => none
+    | some c =>
+      if !sel.contains c then
+        if s'.currentJob != some c then some "rmif-current"
+        else match s.previousJob with
+          | some p => if !sel.contains p && s'.previousJob != some p then some "rmif-previous" else none
+          | none => none
+      else match s.previousJob with
+        | some p => if !sel.contains p && s'.currentJob != some p then some "rmif-current" else none
+        | none => none
+
+/-- the visible table: slots, current and previous job, `$!`, the pid index of every job -/
+def sameTable (a b : JobList) : Bool :=
+  let n := max a.entries.length b.entries.length
+  (List.range n).all (fun i => gets a.entries i == gets b.entries i) &&
+  a.currentJob == b.currentJob && a.previousJob == b.previousJob && a.lastAsync == b.lastAsync &&
+  (pidsOf a.entries ++ pidsOf b.entries).all (fun p => lookup a.pids p == lookup b.pids p)
+
+/-- `get_mut(i).state_reported()`: only the `state_changed` flag of slot `i` -/
+def reportOneSpec (s s' : JobList) (i : Nat) : Bool :=
+  let n := max s.entries.length s'.entries.length
+  (List.range n).all (fun k =>
+    gets s'.entries k == (if k = i then (gets s.entries i).map (fun j => { j with changed := false }) else gets s.entries k)) &&
+  s'.currentJob == s.currentJob && s'.previousJob == s.previousJob && s'.lastAsync == s.lastAsync
+
+/-- the wave-3 operations -/
+def docCheckApi (s s' : JobList) : Op → Option String
+  | .removeIf p r => removalSpec s s' p.eval r none none
+  | .extractIf p r => removalSpec s s' p.eval r none (some (s.removeIf p.eval r).1)
+  | .extractTake n p r => removalSpec s s' p.eval r (some n) (some (s.extractTake n p.eval r).1)
+  -- a closure that counts: exactly the first `k` selected jobs go
+  | .removeIfFirst k p r =>
+    removalSpec s s' (fun i _ => ((selectedIdx s p.eval).take k).contains i) r none none
+  | .reportOne i => if reportOneSpec s s' i then none else some "rep1-table"
+  -- "This function is an alias for `insert`"
+  | .addJob pid st => if sameTable s' (s.insert { pid := pid, state := st }).2 then none else some "add-differs-from-insert"
+  -- "If the process result indicates that the process is stopped, this function adds a job …  The job is marked as
+  -- job-controlled and its state is derived from the process result.  The job name is set to the result of the
+  -- `name` closure.  If the process is not stopped, this function does not add a job."
+  | .ajs pid r _ name =>
+    if r.isStopped then
+      (match (lookup s'.pids pid).bind s'.get with
+       | some j => if j.pid = pid ∧ j.state = r ∧ j.jc = true ∧ j.name = name then none else some "ajs-job"
+       | none => some "ajs-job")
+    else if sameTable s' s then none else some "ajs-table"
+  | _ => none
+
 /-- per-operation documentation checks evaluated on the model's own step `s → s'` with output `o` -/
 def docCheck (s s' : JobList) (op : Op) (o : Out) : Option String :=
   match op with
@@ -321,6 +400,21 @@ def docCheck (s s' : JobList) (op : Op) (o : Out) : Option String :=
   | .sync evs => if syncLicence s s' evs then none else some "sync-table"
   | .waitEv evs _ => if waitEvLicence s s' evs then none else some "wait-removal"
   | .kres arg => killCheck s arg
+  | .removeIf p r => docCheckApi s s' (.removeIf p r)
+  | .extractIf p r => docCheckApi s s' (.extractIf p r)
+  | .extractTake n p r => docCheckApi s s' (.extractTake n p r)
+  | .reportOne i => docCheckApi s s' (.reportOne i)
+  | .removeIfFirst k p r => docCheckApi s s' (.removeIfFirst k p r)
+  | .addJob pid st =>
+    (match docCheckApi s s' (.addJob pid st) with
+     | some m => some m
+     | none =>
+       if st.isStopped ∧ !suspendedBecomesCurrent s s' pid then some knownInsertMsg else none)
+  | .ajs pid r i name =>
+    (match docCheckApi s s' (.ajs pid r i name) with
+     | some m => some m
+     | none =>
+       if r.isStopped ∧ !suspendedBecomesCurrent s s' pid then some knownInsertMsg else none)
   | op =>
     (match becameSuspended s op with
      | none => none
